@@ -10,6 +10,8 @@ mod oracle;
 mod proc;
 #[allow(dead_code)]
 mod cli;
+#[allow(dead_code)]
+mod model;
 mod props;
 
 use runner::Tier;
